@@ -13,6 +13,7 @@ EXPLANATION = (
     "metadata and presence keys on output.pkl only. Atomicity of rename(2) and torn-write behaviour of the file system "
     "are assumed, not decided."
     " metadata.json: the reader's codec decodes everything the writer emits; expires_after compares the age with the whole duration; the new source is never stored ahead of the wipe of the old entries."
+    " The stored source (func_code.py) is the label of every result of the function's directory: it is written only after the directory was wiped (C05.LABEL-AFTER-WIPE, defect D-M7 repaired)."
 )
 ASSUMPTIONS = [
     "os.replace is atomic on the same file system; a killed process leaves either the old or the new file under a final name",
